@@ -13,7 +13,7 @@ from vlib import VERIF, Evidence, Reporter, run_tlc, write_cfg, scratch, SEED, s
 PID = "C05"
 CHECKS = ["MetaSizeChecked", "InodeTypeChecked", "DirCountChecked", "NameSizeChecked", "FragIdxChecked", "FragBoundsChecked",
           "DiskSizeCheckedRead", "DiskSizeCheckedStream", "LoopCheckedTree", "LoopCheckedIter", "XattrIdxChecked", "IdIdxChecked",
-          "TableBoundsChecked", "LongLinkBySize", "FragSumNoWrap"]
+          "TableBoundsChecked", "LongLinkBySize", "FragSumNoWrap", "XattrAbsenceChecked"]
 BS = 4096
 
 
@@ -68,6 +68,8 @@ def base_tree(plan):
         f["ext"] = True
     if plan["id_idx"] == "outofrange":
         g["o_uid_idx"] = 999
+    if plan.get("xattr_table") == "absent":
+        so.update(xattr_tbl=0xFFFFFFFFFFFFFFFF)
     if plan["slink_size"] == "beyond_string":
         lnk["o_target_size"] = 600
     elif plan["slink_size"] == "huge":
@@ -127,19 +129,21 @@ def observe(tools, img, outdir):
         os.makedirs(outdir)
         try:
             p = subprocess.run(cmd, stdout=(subprocess.PIPE if name == "api" else subprocess.DEVNULL), stderr=subprocess.PIPE, timeout=(30 if name == "api" else 10),
-                               env=dict(os.environ, ASAN_OPTIONS="detect_leaks=0:abort_on_error=0:allocator_may_return_null=1:max_allocation_size_mb=4096"))
+                               env=dict(os.environ, ASAN_OPTIONS="detect_leaks=0:abort_on_error=0:allocator_may_return_null=1:max_allocation_size_mb=512"))
             rc, err = p.returncode, p.stderr.decode(errors="replace")
         except subprocess.TimeoutExpired:
             rc, err = 124, ""
         if rc == 124:
             res[name] = "timeout"
-        elif "AddressSanitizer" in err or "runtime error" in err:
+        elif "ERROR: AddressSanitizer" in err or "runtime error" in err:
             kind = "asan"
             for k in ("heap-buffer-overflow", "stack-buffer-overflow", "SEGV", "heap-use-after-free", "stack-overflow", "allocation-size-too-big", "out of memory"):
                 if k in err:
                     kind = "asan:" + k.replace(" ", "-")
                     break
-            res[name] = kind
+            # an allocation request ASan refuses or cannot satisfy is the sanitizer's stand-in for malloc returning NULL (the
+            # "WARNING: ... failed to allocate" lines of allocator_may_return_null are not errors at all): not a memory error
+            res[name] = "error" if kind in ("asan:allocation-size-too-big", "asan:out-of-memory") else kind
         elif rc < 0 or rc in (134, 139):
             res[name] = "signal"
         else:
